@@ -56,7 +56,7 @@ PAIR_POSITIONS = ["enum_value", "property_name", "param_name_query", "string_def
 
 # positions whose text must come back as an exact string constant somewhere in the emitted package
 MEANING = {"enum_value", "property_name", "param_name_query", "param_name_header", "string_default", "discriminator_value",
-           "request_media_type"}   # the Content-Type of a raw body is sent from a literal
+           "request_media_type", "discriminator_property_name", "inline_enum_value_property"}   # (an inline enum on a parameter is typed by its base type: no literal)   # the Content-Type of a raw body is sent from a literal
 
 
 def base_doc() -> dict:
@@ -145,6 +145,26 @@ def place(doc: dict, position: str, text: str) -> dict:
     elif position == "response_media_type":
         c = get["responses"]["200"]["content"]
         c["application/json; note=" + text] = c.pop("application/json")
+    elif position == "schema_title":
+        s["Item"]["title"] = text
+    elif position == "property_title":
+        s["Item"]["properties"]["label"]["title"] = text
+    elif position == "discriminator_property_name":
+        for v in ("Cat", "Dog"):
+            s[v]["properties"][text] = s[v]["properties"].pop("kind")
+            s[v]["required"] = [text]
+        s["Pet"]["discriminator"]["propertyName"] = text
+    elif position == "root_tag_description":
+        d["tags"] = [{"name": "items", "description": text}]
+    elif position == "external_docs_description":
+        get["externalDocs"] = {"url": "https://docs.test", "description": text}
+        d["externalDocs"] = {"url": "https://docs.test", "description": text}
+    elif position == "param_string_default":
+        get["parameters"][1]["schema"]["default"] = text
+    elif position == "inline_enum_value_property":
+        s["Item"]["properties"]["mode"] = {"type": "string", "enum": ["plain", text]}
+    elif position == "inline_enum_value_param":
+        get["parameters"][1]["schema"] = {"type": "string", "enum": ["plain", text]}
     else:
         raise KeyError(position)
     return d
@@ -154,7 +174,9 @@ POSITIONS = ["info_title", "info_description", "schema_description_object", "sch
              "schema_description_map", "schema_description_union", "property_description", "property_name", "enum_value", "string_default",
              "param_name_query", "param_name_header", "param_description", "operation_summary", "operation_description", "tag",
              "response_description", "error_response_description", "discriminator_value", "server_url",
-             "request_body_description", "info_version", "operation_id", "request_media_type", "response_media_type", "response_media_type_second"]
+             "request_body_description", "info_version", "operation_id", "request_media_type", "response_media_type", "response_media_type_second",
+             "schema_title", "property_title", "discriminator_property_name", "root_tag_description", "external_docs_description",
+             "param_string_default", "inline_enum_value_property", "inline_enum_value_param"]
 
 
 def skeleton(tree: ast.AST) -> str:
